@@ -236,11 +236,13 @@ func vspecCovered(x int64, start int64, c int64, size int64) bool {
 //@   loop 1 invariant heldonly(bf.ccond.L) && vdefRing(bf) && vdefStream(bf) && bf.cseq.cursor == old(bf.cseq.cursor) && ppos <= bf.pseq.cursor && 0 <= n && int64(n) <= bf.size
 //@   loop 1 invariant[C15:fresh-predicate] gfield(bf.pseq, "readAt") > gfield(bf.ccond.L, "lockedAt") && gfield(0, "clock") >= gfield(bf.ccond.L, "lockedAt")
 //@   loop 1 invariant[frame] unchangedoutside(bf.buf, 0, len(bf.buf)) && sameslice(bf.tmp, old(bf.tmp))
+//@   ensures[C14:stream] vdefStream(bf)
+//@   ensures[ghostdef-rwfail] gfield(bf, "rwfail") == old(gfield(bf, "rwfail")) + ite(err != nil, 1, 0)
 //@   ensures[C14:ring] vdefRing(bf) && bf.cseq.cursor == old(bf.cseq.cursor)
 //@   ensures[C14:data] err == nil ==> len(b) == n && bf.cseq.cursor+int64(n) <= bf.pseq.cursor && forall(0, n, func(k int) bool { return b[k] == byte(gh_stream[int(bf.cseq.cursor)+k]) })
 //@   ensures[C14:tmp] fresh(arr(bf.tmp)) || (arr(bf.tmp) == arr(old(bf.tmp)) && off(bf.tmp) == off(old(bf.tmp)) && cap(bf.tmp) == cap(old(bf.tmp)))
 //@   ensures[C05:size] int64(n) > bf.size ==> err != nil
-//@   modifies bf.tmp, capelems(bf.tmp), heap("GF.clock"), heap("GF.lockedAt"), heap("GF.readAt"), heap("GF.doneAt"), heap("GF.doneSeen")
+//@   modifies bf.tmp, capelems(bf.tmp), heap("GF.clock"), heap("GF.lockedAt"), heap("GF.readAt"), heap("GF.doneAt"), heap("GF.doneSeen"), gfield(bf, "rwfail")
 
 // ReadPeek: return up to n available bytes without consuming them (at least one; waits while the ring is empty).
 //@ func (*buffer).ReadPeek
@@ -725,8 +727,6 @@ func vspecCovered(x int64, start int64, c int64, size int64) bool {
 //@   trusted
 //@   pure
 //@ func getConnectMessage
-//@   flag bodyhash 1713382e346d
-//@   trusted
 //@   results msg, err
 //@   ensures err == nil ==> msg != nil && fresh(msg) && message.vdefConnSizes(msg) && len(msg.mtypeflags) == 1 && !msg.dirty && len(msg.dbuf) <= 268435460
 //@   ensures[C11:codes] typeis(err, message.ConnackCode) ==> isErr(err, message.ErrInvalidProtocolVersion) || isErr(err, message.ErrIdentifierRejected)
@@ -745,7 +745,7 @@ func vspecCovered(x int64, start int64, c int64, size int64) bool {
 //@   modifies gfield(0, "nstarted"), fields(svc), modset(TopicStore), heap("GF.nsub"), heap("GF.subarr"), heap("GF.suboff"), heap("GF.sublen"), heap("GF.subreq"), heap("GF.subres"), heap("GF.clock"), heap("GF.mlockedAt")
 
 // Assumed: the package-level error values are ordinary errors (created with errors.New), never CONNACK codes.
-//@ axiom errvars
+//@ axiom errvars2
 //@   is ErrInvalidConnectionType != nil && !typeis(ErrInvalidConnectionType, message.ConnackCode)
 
 // The deferred function of handleConnection: any error return closes the connection.
@@ -767,3 +767,26 @@ func vspecCovered(x int64, start int64, c int64, size int64) bool {
 //@   ensures[C11:accepted] err == nil ==> svc != nil && gfield(c, "nconnack") == old(gfield(c, "nconnack"))+1 && gfield(c, "ackcode") == 0 && gfield(0, "nstarted") == old(gfield(0, "nstarted"))+1 && gfield(0, "nauth") == old(gfield(0, "nauth"))+1 && gfield(0, "authok") == 1
 //@   ensures[C11:nothing-before-accept] err != nil && (gfield(0, "nauth") == old(gfield(0, "nauth")) || gfield(0, "authok") == 0) ==> svc == nil && preservedghost("sess") && gfield(0, "nstarted") == old(gfield(0, "nstarted"))
 //@   ensures[C11:closed-on-error] err != nil && c != nil ==> gfield(c, "nclosed") == old(gfield(c, "nclosed"))+1
+
+// ---------------------------------------------------------------- reading the first packet (C05)
+// getMessageBuffer: the unauthenticated read of the first packet. Whatever bytes arrive: no index or slice out of
+// range, and the one allocation whose size the peer chooses is bounded by the largest MQTT packet (4 length bytes,
+// 268435455 + 5), never the 32 GiB a fifth length byte could ask for.
+//@ iface net.Conn.Read
+//@   trusted
+//@   results n, err
+//@   flag args self, b
+//@   ensures 0 <= n && n <= len(b) && !typeis(err, message.ConnackCode)
+//@   modifies elems(b)
+//@ func getMessageBuffer
+//@   results buf, err
+//@   flag allocbound 268435460
+//@   flag maypanic-typeassert
+//@   loop 1 invariant 0 <= l && l <= 5 && len(buf) == l && len(b) == 1 && (cap(buf) == 0 || fresh(arr(buf))) && fresh(arr(b)) && arr(b) != arr(buf)
+//@   loop 1 invariant[cont] forall(1, l, func(i int) bool { return buf[i] >= 128 })
+//@   loop 1 invariant[frame] preservedarrays(b)
+//@   loop 2 invariant 0 <= l && l <= len(buf) && fresh(arr(buf))
+//@   loop 2 invariant[frame] preservedarrays(b)
+//@   ensures[C05:size] err == nil ==> 2 <= len(buf) && len(buf) <= 268435460
+//@   ensures[C11:errtype] !typeis(err, message.ConnackCode)
+//@   modifies nothing
